@@ -202,8 +202,11 @@ public:
         return i;
       }
     }
-    aid = check_atom_id(atom_number);
-    if (aid < 0) return COLVARS_INPUT_ERROR;
+    if (atom_number < 1 || atom_number > eng->natoms) {
+      check_atom_id(atom_number);          // reports the error (its return value is the positive error code)
+      return COLVARS_INPUT_ERROR;
+    }
+    aid = atom_number - 1;
     int const index = add_atom_slot(aid);
     atoms_masses[index] = eng->mass[aid];
     atoms_charges[index] = eng->charge[aid];
